@@ -68,12 +68,25 @@ def main():
         if not skip_tests:
             tests = TESTS.get(prop, TESTS['proto'])
             # a private network namespace per run: the tests bind fixed TCP ports, other runs on this machine must not collide
-            rc, out = sh(f'unshare -n sh -c "ip link set lo up; /venv/bin/python -m pytest -q -p no:cacheprovider --timeout=300 '
-                         f'{" ".join(tests)} 2>&1 | tail -15"', cwd=wt, timeout=3000)
+            # one pytest process per file (test_zeromq's TCP class switches the handshake off for the rest of its process)
+            out = ''
+            for tf in tests:
+                rc, o = sh(f'unshare -n sh -c "ip link set lo up; /venv/bin/python -m pytest -q -p no:cacheprovider --timeout=300 '
+                           f'{tf} 2>&1 | tail -15"', cwd=wt, timeout=3000)
+                out += o
             fails = [l for l in out.splitlines() if l.startswith('FAILED') and not any(k in l for k in KNOWN_FAIL)]
+            # a failure that disappears when the test is re-run alone is a timing flake of the loaded machine
+            real = []
+            for l in fails:
+                tid = l.split()[1]
+                rc, o = sh(f'unshare -n sh -c "ip link set lo up; /venv/bin/python -m pytest -q -p no:cacheprovider --timeout=300 '
+                           f'{tid} 2>&1 | tail -3"', cwd=wt, timeout=900)
+                if ' passed' not in o or ' failed' in o:
+                    real.append(l)
+            fails = real
             res['tests'] = {'files': tests, 'failed': fails, 'tail': out[-300:]}
         rc, out = sh(f'./check {prop} --tier {tier}', cwd='/verif', env=dict(ENV, VERIF_REPO=wt), timeout=3600)
-        viol = [l for l in out.splitlines() if l.startswith('VIOLATION') or l.startswith('  ')][:12]
+        viol = [l for l in out.splitlines() if l.startswith('VIOLATION') or (l.startswith('  ') and not l.startswith('  ['))][:12]
         res['check'] = {'rc': rc, 'lines': viol, 'summary': out.strip().splitlines()[-1][:300] if out.strip() else ''}
         res['caught'] = rc == 1
     finally:
